@@ -314,6 +314,11 @@ def run_case(case, drv):
     leaves = [Stub(i) for i in range(case["nleaves"])]
     try:
         smp = build_py(e, leaves)
+        if isinstance(smp, sampling.SimpleSampler):
+            # an expression object may be re-used as an operand of further expressions; building those must not change it
+            extra = Stub(0)
+            _derived = [smp + 3, smp + extra, extra + smp, 2 * smp, smp * extra, smp - extra, smp / 2, -smp, smp + smp]  # noqa: F841
+            res.features.append("derived-expressions-built-first")
     except Exception as ex:  # noqa
         res.fail("rvs:raises", f"building {tokens(e)} raised {ex!r}")
         return res
